@@ -74,6 +74,8 @@ def warm_quick():
   for md in ('metrics', 'opt'):
     runs.append(('TrainLoop', f'TrainLoop_{md}.cfg', dict(workers=1, timeout=1800)))
   runs.append(('Bridge', 'Bridge_mc.cfg', dict(workers=1, timeout=900)))
+  for md in ('conv', 'convT', 'pool', 'norm'):
+    runs.append(('LayerIndex', f'LayerIndex_{md}.cfg', dict(workers=1, timeout=900)))
   runs.append(('NnxGraph', 'NnxGraph_mc.cfg', dict(workers=16, timeout=3000)))
   runs.append(('NnxGraph', 'NnxGraph_small.cfg', dict(workers=1, timeout=3000)))
   return runs
